@@ -1627,7 +1627,17 @@ def pts(F, ob, cfg):
             ob.true("text.one_line_per_point", len(doc) == o.n_points + 4)
             got = inlm.pts_importer(_VPath(fh, "marks.v1.0.pts"))
         else:
-            mio.export_landmark_file(o, path)
+            if cfg.get("n", 2) != 2:
+                # a 3-D shape cannot be held by the 2-D PTS format: it must be refused, not silently cut
+                try:
+                    mio.export_landmark_file(o, path)
+                except ValueError:
+                    ob.true("3d_shape.refused_or_kept", True)
+                    ob.true("3d_shape.no_file_left_half_written", (not os.path.exists(path)) or os.path.getsize(path) == 0)
+                    K.eq_digest(F, ob, "exported.untouched", K.digest(o), before)
+                    return
+            else:
+                mio.export_landmark_file(o, path)
             got = mio.import_landmark_file(path)
             ob.true("imported.path_recorded", str(getattr(got.get("PTS"), "path", "")) == path)
         ob.true("group_names", list(got.keys()) == ["PTS"])
